@@ -110,11 +110,11 @@ void MultiTagHDF5::extents(const std::string &name_or_id) {
 
     if (!ida)
         throw std::runtime_error("MultiTagHDF5::extents: DataArray not found in block!");
+    if (!checkDimensions(ida, positions()))
+        throw std::runtime_error("MultiTagHDF5::extents: cannot set Extent because dimensionality of extent and position data do not match!");
     if (group().hasGroup("extents"))
         group().removeGroup("extents");
 
-    if (!checkDimensions(ida, positions()))
-        throw std::runtime_error("MultiTagHDF5::extents: cannot set Extent because dimensionality of extent and position data do not match!");
     auto target = std::dynamic_pointer_cast<DataArrayHDF5>(ida);
 
     group().createLink(target->group(), "extents");
